@@ -142,6 +142,10 @@ pub struct SimCfg {
     /// forward clock jumps (at_ms, by_ms): the executor is starved for that long
     pub jumps: Vec<(u64, u64)>,
     pub rt_seed: u64,
+    /// (task selector, polls): that task's future is handed to "another task" after so many
+    /// polls: from then on it is polled with a new waker and wake-ups through the old one are
+    /// lost (a future must re-register the waker of its latest poll)
+    pub migrate: Option<(u32, u32)>,
 }
 
 impl Default for SimCfg {
@@ -154,6 +158,7 @@ impl Default for SimCfg {
             yield_every: 0,
             jumps: Vec::new(),
             rt_seed: 1,
+            migrate: None,
         }
     }
 }
@@ -176,6 +181,8 @@ struct Shared {
 
 struct TaskWake {
     id: u64,
+    /// the task has moved on to another waker: wake-ups through this one reach nobody
+    dead: AtomicBool,
     woken: AtomicBool,
     stamp: AtomicU64,
     shared: Arc<Shared>,
@@ -186,6 +193,9 @@ impl Wake for TaskWake {
         self.wake_by_ref()
     }
     fn wake_by_ref(self: &Arc<Self>) {
+        if self.dead.load(Ordering::SeqCst) {
+            return;
+        }
         if !self.woken.swap(true, Ordering::SeqCst) {
             let s = self.shared.stamp.fetch_add(1, Ordering::SeqCst);
             self.stamp.store(s, Ordering::SeqCst);
@@ -538,6 +548,7 @@ impl<'a, 'h> Root<'a, 'h> {
                             }
                         }
                     }
+                    let ntasks = self.tasks.len().max(1);
                     let t = &mut self.tasks[i];
                     if t.res.status == Status::Running {
                         t.wake.woken.store(false, Ordering::SeqCst);
@@ -563,6 +574,21 @@ impl<'a, 'h> Root<'a, 'h> {
                                 t.res.end_us = world::now_us();
                             }
                             Ok(Poll::Pending) => {
+                                if let Some((sel, after)) = self.cfg.migrate {
+                                    if sel as usize % ntasks == i && t.res.polls == after.max(1) && !t.wake.woken.load(Ordering::SeqCst) {
+                                        // the pending future moves to "another task": wake-ups through
+                                        // the waker it has seen so far are lost from now on, and the new
+                                        // owner polls it once (a spurious poll, which every future must
+                                        // take) with its own waker
+                                        world::fault("waker_migration");
+                                        t.wake.dead.store(true, Ordering::SeqCst);
+                                        let nw = Arc::new(TaskWake { id: i as u64, dead: AtomicBool::new(false), woken: AtomicBool::new(false), stamp: AtomicU64::new(0), shared: self.shared.clone() });
+                                        t.waker = Waker::from(nw.clone());
+                                        t.wake = nw;
+                                        t.wake.wake_by_ref();
+                                        world::with(|w| w.intentional_yield = true);
+                                    }
+                                }
                                 if t.wake.woken.load(Ordering::SeqCst) {
                                     let intentional =
                                         world::with(|w| w.intentional_yield);
@@ -662,6 +688,7 @@ pub fn run_sim(
         for (i, d) in defs.into_iter().enumerate() {
             let wake = Arc::new(TaskWake {
                 id: i as u64,
+                dead: AtomicBool::new(false),
                 woken: AtomicBool::new(false),
                 stamp: AtomicU64::new(0),
                 shared: shared.clone(),
